@@ -362,3 +362,183 @@ Theorem clean_segs_unrooted_dotdot_prefix s :
 Proof.
   intros Hr. pose proof (clean_segs_nf s) as [_ Hnf]. rewrite Hr in Hnf. now apply dd_pre_shape.
 Qed.
+
+Lemma nf_slash_free rooted l : nf rooted l -> Forall slash_free l.
+Proof.
+  intros [H _]. eapply Forall_impl; [|exact H]. intros a [_ [_ Ha]]. exact Ha.
+Qed.
+
+Lemma join_slash_head x l : exists t, join_slash (x :: l) = x ++ t.
+Proof.
+  destruct l as [|y l]; [exists []; simpl; now rewrite app_nil_r|].
+  exists (SLASH :: join_slash (y :: l)). reflexivity.
+Qed.
+
+Lemma is_rooted_render rooted l : nf rooted l -> is_rooted (render rooted l) = rooted.
+Proof.
+  intros Hnf. destruct rooted; [reflexivity|]. unfold render.
+  destruct l as [|x l]; [reflexivity|].
+  destruct Hnf as [H _]. inversion H as [|? ? [Hn [_ Hsf]] _]; subst.
+  destruct (join_slash_head x l) as [t ->]. destruct x as [|c x]; [congruence|].
+  cbn [app is_rooted]. apply N.eqb_neq. intros ->. apply Hsf. now left.
+Qed.
+
+Lemma render_nonnil rooted l : nf rooted l -> render rooted l <> [].
+Proof.
+  intros Hnf. destruct rooted; [discriminate|]. unfold render.
+  destruct l as [|x l]; [discriminate|].
+  destruct Hnf as [H _]. inversion H as [|? ? [Hn _] _]; subst.
+  destruct (join_slash_head x l) as [t ->]. destruct x; [congruence | discriminate].
+Qed.
+
+(* A2: rendering then splitting gives the segments back.  (For [segs = []] the rooted
+   rendering is "/" which splits into TWO empty pieces, the unrooted one is "." .) *)
+Theorem split_render rooted segs : segs <> [] -> Forall slash_free segs ->
+  split_slash (render rooted segs) = if rooted then [] :: segs else segs.
+Proof.
+  intros Hn Hf. destruct rooted.
+  - unfold render. rewrite split_slash_cons_slash. f_equal. now apply split_join.
+  - unfold render. destruct segs as [|x l]; [congruence|]. now apply split_join.
+Qed.
+
+Lemma split_render_nil_rooted : split_slash (render true []) = [[]; []].
+Proof. reflexivity. Qed.
+Lemma split_render_nil_unrooted : split_slash (render false []) = [s_dot].
+Proof. reflexivity. Qed.
+
+Lemma clean_segs_render rooted l : nf rooted l -> clean_segs (render rooted l) = l.
+Proof.
+  intros Hnf. unfold clean_segs. rewrite is_rooted_render by exact Hnf.
+  destruct l as [|x l'] eqn:El.
+  - destruct rooted; reflexivity.
+  - rewrite split_render; [| discriminate | now apply nf_slash_free in Hnf].
+    destruct rooted.
+    + rewrite norm_aux_skip by now left. apply (norm_aux_id true _ []). exact Hnf.
+    + apply (norm_aux_id false _ []). exact Hnf.
+Qed.
+
+Lemma clean_render rooted l : nf rooted l -> clean (render rooted l) = render rooted l.
+Proof.
+  intros Hnf. unfold clean. now rewrite is_rooted_render, clean_segs_render.
+Qed.
+
+(* A3 *)
+Theorem clean_idempotent s : clean (clean s) = clean s.
+Proof. exact (clean_render _ _ (clean_segs_nf s)). Qed.
+
+(* A4 *)
+Theorem is_rooted_clean s : is_rooted (clean s) = is_rooted s.
+Proof. exact (is_rooted_render _ _ (clean_segs_nf s)). Qed.
+
+Theorem clean_nonnil s : clean s <> [].
+Proof. exact (render_nonnil _ _ (clean_segs_nf s)). Qed.
+
+Theorem clean_segs_clean s : clean_segs (clean s) = clean_segs s.
+Proof. exact (clean_segs_render _ _ (clean_segs_nf s)). Qed.
+
+(* two strings clean to the same string iff same rootedness and same resolved segments *)
+Theorem clean_eq_iff a b :
+  clean a = clean b <-> is_rooted a = is_rooted b /\ clean_segs a = clean_segs b.
+Proof.
+  split.
+  - intros H. split.
+    + rewrite <- (is_rooted_clean a), <- (is_rooted_clean b). now rewrite H.
+    + rewrite <- (clean_segs_clean a), <- (clean_segs_clean b). now rewrite H.
+  - intros [H1 H2]. unfold clean. now rewrite H1, H2.
+Qed.
+
+(* A5 *)
+Theorem normalize_clean s : normalize_path (clean s) = normalize_path s.
+Proof. unfold normalize_path. now rewrite clean_idempotent. Qed.
+
+Theorem normalize_idempotent s : normalize_path (normalize_path s) = normalize_path s.
+Proof.
+  assert (H : normalize_path s = s_slash \/
+              (normalize_path s = clean s /\ is_dot (clean s) || is_dotdot (clean s) = false)).
+  { unfold normalize_path. destruct (is_dot (clean s) || is_dotdot (clean s)); auto. }
+  destruct H as [-> | [-> E]]; [reflexivity|].
+  unfold normalize_path. rewrite clean_idempotent. now rewrite E.
+Qed.
+
+Theorem normalize_nonnil s : normalize_path s <> [].
+Proof.
+  unfold normalize_path. destruct (is_dot (clean s) || is_dotdot (clean s)); [discriminate|].
+  apply clean_nonnil.
+Qed.
+
+Theorem clean_normalize s : clean (normalize_path s) = normalize_path s.
+Proof.
+  unfold normalize_path. destruct (is_dot (clean s) || is_dotdot (clean s)); [reflexivity|].
+  apply clean_idempotent.
+Qed.
+
+(* ------------------------------------------------------------------------------------ *)
+(** * B. spelling (C01): the MemMapFs model sees a path only through normalize_path *)
+
+Definition map_paths (f : str -> str) (o : op) : op :=
+  match o with
+  | Create p => Create (f p)
+  | Mkdir p perm => Mkdir (f p) perm
+  | MkdirAll p perm => MkdirAll (f p) perm
+  | Open p => Open (f p)
+  | OpenFile p flag perm => OpenFile (f p) flag perm
+  | Remove p => Remove (f p)
+  | RemoveAll p => RemoveAll (f p)
+  | Rename p q => Rename (f p) (f q)
+  | Stat p => Stat (f p)
+  | Chmod p m => Chmod (f p) m
+  | Chown p u g => Chown (f p) u g
+  | Chtimes p t => Chtimes (f p) t
+  | _ => o
+  end.
+
+Lemma m_create_clean s p : m_create s (clean p) = m_create s p.
+Proof. unfold m_create. now rewrite normalize_clean. Qed.
+Lemma m_mkdir_clean s p perm : m_mkdir s (clean p) perm = m_mkdir s p perm.
+Proof. unfold m_mkdir. now rewrite normalize_clean. Qed.
+Lemma m_mkdirall_clean s p perm : m_mkdirall s (clean p) perm = m_mkdirall s p perm.
+Proof. unfold m_mkdirall. now rewrite m_mkdir_clean. Qed.
+Lemma m_open_clean s p : m_open s (clean p) = m_open s p.
+Proof. unfold m_open. now rewrite normalize_clean. Qed.
+Lemma m_openfile_clean s p flag perm : m_openfile s (clean p) flag perm = m_openfile s p flag perm.
+Proof. unfold m_openfile. now rewrite normalize_clean. Qed.
+Lemma m_remove_clean s p : m_remove s (clean p) = m_remove s p.
+Proof. unfold m_remove. now rewrite normalize_clean. Qed.
+Lemma m_removeall_clean s p : m_removeall s (clean p) = m_removeall s p.
+Proof. unfold m_removeall. now rewrite normalize_clean. Qed.
+Lemma m_rename_clean s p q : m_rename s (clean p) (clean q) = m_rename s p q.
+Proof. unfold m_rename. now rewrite !normalize_clean. Qed.
+Lemma m_stat_clean s p : m_stat s (clean p) = m_stat s p.
+Proof. unfold m_stat. now rewrite normalize_clean. Qed.
+Lemma m_chmod_clean s p m : m_chmod s (clean p) m = m_chmod s p m.
+Proof. unfold m_chmod. now rewrite normalize_clean. Qed.
+Lemma m_chown_clean s p u g : m_chown s (clean p) u g = m_chown s p u g.
+Proof. unfold m_chown. now rewrite normalize_clean. Qed.
+Lemma m_chtimes_clean s p t : m_chtimes s (clean p) t = m_chtimes s p t.
+Proof. unfold m_chtimes. now rewrite normalize_clean. Qed.
+
+Lemma m_step_raw_clean s o : m_step_raw s (map_paths clean o) = m_step_raw s o.
+Proof.
+  destruct o; cbn [map_paths m_step_raw];
+    auto using m_create_clean, m_mkdir_clean, m_mkdirall_clean, m_open_clean, m_openfile_clean,
+      m_remove_clean, m_removeall_clean, m_rename_clean, m_stat_clean, m_chmod_clean,
+      m_chown_clean, m_chtimes_clean.
+Qed.
+
+Theorem C01_spelling_lemma s o : m_step s (map_paths clean o) = m_step s o.
+Proof. unfold m_step. now rewrite m_step_raw_clean. Qed.
+
+Theorem C01_spelling_corollary s o o' :
+  map_paths clean o = map_paths clean o' -> m_step s o = m_step s o'.
+Proof.
+  intros H. rewrite <- (C01_spelling_lemma s o), <- (C01_spelling_lemma s o'). now rewrite H.
+Qed.
+
+(* the same for any spelling change that preserves normalize_path, e.g. normalize_path itself *)
+Theorem m_step_normalize s o : m_step s (map_paths normalize_path o) = m_step s o.
+Proof.
+  unfold m_step. replace (m_step_raw s (map_paths normalize_path o)) with (m_step_raw s o); [reflexivity|].
+  destruct o; cbn [map_paths m_step_raw]; try reflexivity;
+    unfold m_create, m_mkdir, m_mkdirall, m_mkdir, m_open, m_openfile, m_remove, m_removeall, m_rename,
+      m_stat, m_chmod, m_chown, m_chtimes; now rewrite !normalize_idempotent.
+Qed.
